@@ -344,8 +344,8 @@ def bfOkD : BitField → Bool
   | .count _ w => decide (0 < w) && decide (w < (fitting w).bits) && decide (w ≤ 31)
   | f => bfOkJ f
 
-/-- packets and structs without parent: bit-field groups of 8 / 16 / 32 bits, arrays of 8- / 16- / 32- / 64-bit scalars of every
-    shape, payloads -/
+/-- packets and structs without parent: bit-field groups of 8 / 16 / 32 bits, arrays of 8- / 16- / 32- / 64-bit scalars and
+    enums of every shape, payloads -/
 def decWfItems2 : Items → Bool
   | .nil => true
   | .cons (.chunk fs) r =>
@@ -353,6 +353,8 @@ def decWfItems2 : Items → Bool
   | .cons (.payload mode) r => (match mode with | .undelimited => false | .sized m => m == 0 | _ => true) && decWfItems2 r
   | .cons (.array _ (.scalar w) (.static eb) _ none) r =>
     (w == 8 || w == 16 || w == 32 || w == 64) && eb == w / 8 && decWfItems2 r
+  | .cons (.array _ (.enumTy _ e) (.static eb) _ none) r =>
+    (e.width == 8 || e.width == 16 || e.width == 32 || e.width == 64) && eb == e.width / 8 && decWfItems2 r
   | .cons _ _ => false
 
 /-- bit-fields of the extended serializer class: those of `bfOkJ`, and size / count fields of at most 32 bits -/
@@ -368,6 +370,8 @@ def encWfItems : Items → Bool
   | .cons (.chunk fs) r => fs.all bfOkE && decide (chunkBits fs ≤ 32) && encWfItems r
   | .cons (.payload _) r => encWfItems r
   | .cons (.array _ (.scalar w) (.static _) _ none) r => decide (w % 8 = 0) && decide (0 < w) && decide (w ≤ 64) && encWfItems r
+  | .cons (.array _ (.enumTy _ e) (.static _) _ none) r =>
+    decide (e.width % 8 = 0) && decide (0 < e.width) && decide (e.width ≤ 64) && encWfItems r
   | .cons _ _ => false
 
 /-- the ancestors of a child of the serializer theorem: in the class, with exactly one payload each -/
